@@ -1,20 +1,21 @@
 (* C14 - concurrent senders never corrupt the outbound sequence.
    Theorems only (proofs in AF.Lemmas.SchedL); the model is AF.Fix.Sched: asyncio's scheduling rule
    (run-to-next-suspension, one task at a time) over the suspension points of asyncfix/connection.py
-   (writer.drain() in send_msg; the awaited hooks on_state_change / should_replay / on_message /
+   (writer.drain() at the end of send_msg; the awaited hooks on_state_change / should_replay / on_message /
    on_logon).  A schedule is ANY list of task indices (`run_sched c sched` resumes them in that
    order; choosing a finished or non-existent task is a no-op), so every statement below is over all
-   interleavings, every number of tasks, every message list, unbounded schedule length.
-   `fifo_sched c sched = true` says the schedule obeys the drain wake-up rule "the drain waiter that
-   suspended first resumes first"; it is a hypothesis of the stored-counter clause ONLY
-   (C14_lifo_counter_refuted shows it is needed), everything else holds for every schedule.
+   interleavings, every number of tasks, every message list, unbounded schedule length - and, since the
+   conclusion is stated for the configuration after ANY schedule, it holds after every prefix, not only
+   when the tasks have finished.
 
-   The model describes the code AFTER the repair of D12 (fixes/D12-resend-keeps-journal.patch: the
-   ResendRequest handler no longer rewinds next_num_out nor truncates the journal; PossDup / gap-fill
-   replies are not journaled again).  With it the theorems cover the WHOLE domain of the property,
-   including schedules in which a ResendRequest is being serviced while other tasks send
-   (C14_resend_window); no known-finding class is left for C14.  `new` below = the new messages on
-   the wire (not PossDupFlag=Y, not SequenceReset), `retx_ok` = a legitimate retransmission frame. *)
+   The model describes the code after the repairs D12 / R3c / R5 / R6 (ResendRequest service) and R8a
+   (send_msg journals BEFORE it writes to the transport: allocation + journal + write is one stretch
+   without an await) and R8c (outbound gate in LOGON_INITIAL_RECV).  With R8a NO clause needs an
+   assumption on the order in which drain waiters are woken: the stored-counter clause, which needed
+   FIFO wake-up before (former C14_lifo_counter_refuted), is now an invariant of every schedule
+   (C14_lifo_counter_example shows the former witness).  The theorems cover the whole domain of the
+   property; no known-finding class is left for C14.  `new` below = the new messages on the wire
+   (not PossDupFlag=Y, not SequenceReset), `retx_ok` = a legitimate retransmission frame. *)
 From Coq Require Import ZArith List Bool.
 From AF Require Import Fix.Sched Lemmas.SchedL.
 Import ListNotations.
@@ -25,8 +26,7 @@ Open Scope Z_scope.
    mss: the messages of each task, all of them new (not SequenceReset, not PossDupFlag=Y). *)
 Theorem C14_senders_safe : forall (w0 : world) (mss : list (list msg)) (sched : list nat),
   init_ok w0 -> Forall (fun ms => forallb is_new ms = true) mss ->
-  let c0 := mkC w0 (map sender_task mss) in
-  let c := run_sched c0 sched in
+  let c := run_sched (mkC w0 (map sender_task mss)) sched in
   let w := c_w c in
   let new := newf (wire_of w) in
   (* wire order = number order, consecutive from the first free number: strictly increasing, distinct *)
@@ -37,15 +37,13 @@ Theorem C14_senders_safe : forall (w0 : world) (mss : list (list msg)) (sched : 
   /\ Forall (fun g => is_newf g = true \/ retx_ok (rows w) (nout w) g) (wire_of w)
   (* no DuplicateSeqNoError, neither returned to a caller nor swallowed *)
   /\ no_dup_error (c_ts c)
-  (* every new frame is journaled under its number, or its sender is still suspended in drain *)
-  /\ (forall f, In f new -> row_at (f_seq f) (rows w) = Some f \/ in_drain (c_ts c) f)
+  (* every new frame on the wire IS journaled under its number (already while its sender is in drain) *)
+  /\ (forall f, In f new -> row_at (f_seq f) (rows w) = Some f)
   (* no other row appears, older rows are untouched *)
   /\ (forall k f, nout w0 <= k -> row_at k (rows w) = Some f -> In f new /\ f_seq f = k)
   /\ (forall k, k < nout w0 -> row_at k (rows w) = row_at k (rows w0))
-  (* when all tasks have finished every frame is journaled ... *)
-  /\ (all_done c = true -> forall f, In f new -> row_at (f_seq f) (rows w) = Some f)
-  (* ... and, under FIFO drain wake-up, stored counter = highest number sent = next_num_out - 1 *)
-  /\ (fifo_sched c0 sched = true -> all_done c = true -> sout w = nout w - 1).
+  (* stored counter = highest number sent = next_num_out - 1: at every point of every schedule *)
+  /\ sout w = nout w - 1.
 Proof. exact senders_safe. Qed.
 Print Assumptions C14_senders_safe.
 
@@ -54,8 +52,7 @@ Print Assumptions C14_senders_safe.
    on_logon hook) and the heartbeat task's probe running concurrently. *)
 Theorem C14_logon_window : forall (w0 : world) (mss : list (list msg)) (sched : list nat),
   init_ok w0 -> Forall (fun ms => forallb is_new ms = true) mss ->
-  let c0 := mkC w0 (reader_logon :: heartbeat_task :: map sender_task mss) in
-  safe_outcome w0 (run_sched c0 sched) (fifo_sched c0 sched).
+  safe_outcome w0 (run_sched (mkC w0 (reader_logon :: heartbeat_task :: map sender_task mss)) sched).
 Proof. exact logon_window_safe. Qed.
 Print Assumptions C14_logon_window.
 
@@ -64,8 +61,7 @@ Print Assumptions C14_logon_window.
 Theorem C14_reader_replies_safe : forall (w0 : world) (r : task) (mss : list (list msg)) (sched : list nat),
   init_ok w0 -> In r [reader_testreq; reader_gap; reader_app] ->
   Forall (fun ms => forallb is_new ms = true) mss ->
-  let c0 := mkC w0 (r :: heartbeat_task :: map sender_task mss) in
-  safe_outcome w0 (run_sched c0 sched) (fifo_sched c0 sched).
+  safe_outcome w0 (run_sched (mkC w0 (r :: heartbeat_task :: map sender_task mss)) sched).
 Proof. exact reader_replies_safe. Qed.
 Print Assumptions C14_reader_replies_safe.
 
@@ -75,8 +71,7 @@ Print Assumptions C14_reader_replies_safe.
    copy of the journaled message of that number, nothing is journaled twice, the counter is right. *)
 Theorem C14_resend_window : forall (w0 : world) (b e : Z) (d : list Z) (mss : list (list msg)) (sched : list nat),
   init_ok w0 -> Forall (fun ms => forallb is_new ms = true) mss ->
-  let c0 := mkC w0 (reader_resend b e d :: heartbeat_task :: map sender_task mss) in
-  safe_outcome w0 (run_sched c0 sched) (fifo_sched c0 sched).
+  safe_outcome w0 (run_sched (mkC w0 (reader_resend b e d :: heartbeat_task :: map sender_task mss)) sched).
 Proof. exact resend_window_safe. Qed.
 Print Assumptions C14_resend_window.
 
@@ -84,10 +79,10 @@ Print Assumptions C14_resend_window.
    send_test_req, _state_set hooks, plain hooks, role assignments and ResendRequest services (IResend,
    which unfolds into should_replay hooks, PossDup replays and gap fills; IFinally, the state-restoring
    finally clause around it, including its hook on the exception path).  safe_outcome is the
-   nine-clause conjunction above. *)
+   eight-clause conjunction above. *)
 Theorem C14_safe_tasks : forall (w0 : world) (ts : list task) (sched : list nat),
   init_ok w0 -> Forall fresh_task ts ->
-  safe_outcome w0 (run_sched (mkC w0 ts) sched) (fifo_sched (mkC w0 ts) sched).
+  safe_outcome w0 (run_sched (mkC w0 ts) sched).
 Proof. exact safe_tasks_safe. Qed.
 Print Assumptions C14_safe_tasks.
 
@@ -147,12 +142,11 @@ Example C14_resend_unservable_example :
 Proof. exact resend_unservable_example. Qed.
 Print Assumptions C14_resend_unservable_example.
 
-(* The wake-up rule is needed for the counter clause: two senders, LIFO wake-up [0;1;1;0]:
-   wire 1,2 both journaled, stored counter 1, next_num_out 3.  (Not a library defect: asyncio wakes
-   drain waiters in arrival order; this delimits the trusted base.) *)
-Theorem C14_lifo_counter_refuted :
+(* The former witness of "the counter clause needs FIFO wake-up": two senders, LIFO wake-up [0;1;1;0].
+   With the journal write before the transport write the stored counter is 2 = highest number sent. *)
+Example C14_lifo_counter_example :
   let c := run_sched lifo_cfg lifo_sched in
   fifo_sched lifo_cfg lifo_sched = false /\ valid_sched lifo_cfg lifo_sched = true /\ all_done c = true
-  /\ map f_seq (wire_of (c_w c)) = [1; 2] /\ sout (c_w c) = 1 /\ nout (c_w c) = 3.
-Proof. exact lifo_counter_refuted. Qed.
-Print Assumptions C14_lifo_counter_refuted.
+  /\ map f_seq (wire_of (c_w c)) = [1; 2] /\ map fst (rows (c_w c)) = [1; 2] /\ sout (c_w c) = 2 /\ nout (c_w c) = 3.
+Proof. exact lifo_counter_example. Qed.
+Print Assumptions C14_lifo_counter_example.
